@@ -919,9 +919,14 @@ def errors(source, model, wcshelper):
     # position errors
     if model[prefix + 'xo'].vary and model[prefix + 'yo'].vary \
             and all(np.isfinite([err_xo, err_yo])):
-        offset = wcshelper.pix2sky([xo + err_xo, yo + err_yo])
-        source.err_ra = gcd(ref[0], ref[1], offset[0], ref[1])
-        source.err_dec = gcd(ref[0], ref[1], ref[0], offset[1])
+        # the pixel axes need not be aligned with ra/dec (rotated images),
+        # so each of the two pixel errors contributes to both sky errors
+        offx = wcshelper.pix2sky([xo + err_xo, yo])
+        offy = wcshelper.pix2sky([xo, yo + err_yo])
+        source.err_ra = np.hypot(gcd(ref[0], ref[1], offx[0], ref[1]),
+                                 gcd(ref[0], ref[1], offy[0], ref[1]))
+        source.err_dec = np.hypot(gcd(ref[0], ref[1], ref[0], offx[1]),
+                                  gcd(ref[0], ref[1], ref[0], offy[1]))
         # huge pixel errors (singular fits) can land off the sky
         if not all(np.isfinite([source.err_ra, source.err_dec])):
             source.err_ra = source.err_dec = ERR_MASK
